@@ -1124,3 +1124,88 @@ Proof.
       eapply IH; eauto.
     + rewrite put_missing, Hne in P. discriminate.
 Qed.
+
+(* ------------------------------------------------------------------ *)
+(* field paths: no segment reads as an array index.  Writes along a field path
+   never touch (or pad) an array, so the frame property is unconditional. *)
+
+Definition field_path (p : path) : Prop := Forall (fun s => atoi s = None) p.
+
+Lemma field_path_canon p : field_path p -> canon_path p.
+Proof.
+  unfold field_path, canon_path. intro H. eapply Forall_impl; [|exact H].
+  intros s Hs. cbv beta in Hs. red. destruct (parse_index s) as [i|] eqn:E; [|exact Hs].
+  rewrite (parse_index_atoi _ _ E) in Hs. discriminate.
+Qed.
+
+Lemma get_nocollect_flag p : forall x k, snd (get x p false k) = false.
+Proof.
+  induction p as [|s r IH]; intros x k; [rewrite get_nil; reflexivity|].
+  destruct (empty_path (s :: r)) eqn:Hne; [rewrite get_empty_path by assumption; reflexivity|].
+  destruct x; try (rewrite get_scalar by (intros; congruence); reflexivity).
+  - rewrite get_doc, Hne. destruct (lookup d s); [apply IH | reflexivity].
+  - rewrite get_arr, Hne. destruct (parse_index s); [|reflexivity].
+    destruct (nth_z a z); [apply IH | reflexivity].
+Qed.
+
+Lemma get_pair_eq x y p q k :
+  fst (get x p false k) = fst (get y q false k) -> get x p false k = get y q false k.
+Proof.
+  intro H. pose proof (get_nocollect_flag p x k). pose proof (get_nocollect_flag q y k).
+  destruct (get x p false k), (get y q false k). cbn in *. congruence.
+Qed.
+
+Lemma get_missing_pair x q k : fst (get x q false k) = VMissing -> get x q false k = (VMissing, false).
+Proof.
+  intro H. pose proof (get_nocollect_flag q x k). destruct (get x q false k). cbn in *. congruence.
+Qed.
+
+Lemma put_frame_field_val p : forall x q nv pre old x',
+  field_path p -> put x p nv pre = Some (old, x') -> disjoint p q ->
+  get x' q false false = get x q false false.
+Proof.
+  induction p as [|s p' IH]; intros x q nv pre old x' F H D; [contradiction|].
+  destruct q as [|t q']; [contradiction|].
+  inversion F as [|? ? Fs Fp]; subst.
+  pose proof (put_cons_not_empty _ _ _ _ _ _ H) as Hne.
+  cbn [disjoint] in D.
+  destruct (empty_path (t :: q')) eqn:Hqe; [rewrite !get_empty_path by assumption; reflexivity|].
+  destruct (put_cons_shape _ _ _ _ _ _ H) as [[d ->]|[[a ->]| ->]].
+  - rewrite put_doc, Hne in H.
+    destruct (lookup d s) as [y|] eqn:L.
+    + destruct (put y p' nv pre) as [[o y']|] eqn:P; [|discriminate]. injection H as _ <-.
+      rewrite !get_doc, Hqe.
+      destruct D as [[<- D]|[Hst _]].
+      * destruct p' as [|k r]; [contradiction|].
+        rewrite (put_cons_result_not_missing _ _ _ _ _ _ _ P).
+        rewrite (lookup_replace_first_eq _ _ _ _ L), L. eapply IH; eauto.
+      * destruct (is_missing y').
+        -- rewrite (lookup_remove_first_neq _ _ _ Hst). reflexivity.
+        -- rewrite (lookup_replace_first_neq _ _ _ _ Hst). reflexivity.
+    + destruct (is_missing nv) eqn:Hnv; [discriminate|].
+      destruct (put_new p' nv) as [inner|] eqn:N; [|discriminate]. injection H as _ <-.
+      rewrite !get_doc, Hqe.
+      destruct D as [[<- D]|[Hst _]].
+      * rewrite L. destruct pre.
+        -- cbn [lookup]. rewrite String.eqb_refl. apply get_missing_pair. eapply put_new_get_disjoint; eauto.
+        -- rewrite (lookup_app_new _ _ _ L). apply get_missing_pair. eapply put_new_get_disjoint; eauto.
+      * destruct pre.
+        -- cbn [lookup]. destruct (String.eqb_spec s t); [contradiction | reflexivity].
+        -- rewrite (lookup_app_other _ _ _ _ Hst). reflexivity.
+  - rewrite put_arr, Hne, Fs in H. discriminate.
+  - rewrite put_missing, Hne in H. destruct (is_missing nv) eqn:Hnv; [discriminate|].
+    destruct (put_new p' nv) as [inner|] eqn:N; [|discriminate]. injection H as _ <-.
+    rewrite get_doc, Hqe. rewrite (get_scalar VMissing) by (intros; congruence).
+    cbn [lookup].
+    destruct D as [[<- D]|[Hst _]].
+    + rewrite String.eqb_refl. apply get_missing_pair. eapply put_new_get_disjoint; eauto.
+    + destruct (String.eqb_spec s t); [contradiction | reflexivity].
+Qed.
+
+(* a write along a field path leaves every disjoint path alone, readable or not *)
+Theorem get_put_frame_field d p q v pre old d' :
+  field_path p -> disjoint p q -> put_path d p v pre = Ok (old, d') -> get_path d' q = get_path d q.
+Proof.
+  intros F D H. destruct (put_path_ok _ _ _ _ _ _ H) as [Hv P].
+  unfold get_path. rewrite (put_frame_field_val _ _ _ _ _ _ _ F P D). reflexivity.
+Qed.
